@@ -234,7 +234,18 @@ type tlvNode struct {
 	clen     int
 	children []*tlvNode
 	content  []byte
-	cons     bool // constructed, or an OCTET STRING that wraps DER
+	cons     bool   // constructed, or an OCTET / BIT STRING that wraps DER
+	prefix   []byte // the unused-bits byte of a wrapping BIT STRING
+	raw      []byte // literal bytes that replace the node (inner truncation)
+}
+
+// wrapsDER: the content starts like a universal constructed or string/integer TLV whose length fits exactly.
+func wrapsDER(c []byte) bool {
+	switch c[0] {
+	case 0x30, 0x31, 0x04, 0x02, 0x0c, 0x13, 0x16, 0x03, 0x06, 0x0a:
+		return int(c[1]) < 0x80 && int(c[1]) <= len(c)-2 || c[1] == 0x81 || c[1] == 0x82
+	}
+	return false
 }
 
 // parseTLVs parses b[lo:hi] as a sequence of single-byte-tag, definite-length TLVs; ok=false if it is not one.
@@ -267,9 +278,15 @@ func parseTLVs(b []byte, lo, hi, depth int) ([]*tlvNode, bool) {
 			if ch, ok := parseTLVs(b, p+h, p+h+l, depth+1); ok {
 				n.children, n.cons = ch, true
 			}
-		} else if n.tag == 0x04 && l > 2 && n.content[0] == 0x30 {
-			if ch, ok := parseTLVs(b, p+h, p+h+l, depth+1); ok && len(ch) == 1 {
+		} else if n.tag == 0x04 && l >= 2 && wrapsDER(n.content) {
+			// an OCTET STRING that wraps DER (the response bytes, extension values)
+			if ch, ok := parseTLVs(b, p+h, p+h+l, depth+1); ok && len(ch) >= 1 {
 				n.children, n.cons = ch, true
+			}
+		} else if n.tag == 0x03 && l >= 3 && n.content[0] == 0 && n.content[1] == 0x30 {
+			// a BIT STRING without unused bits that wraps DER (subjectPublicKey)
+			if ch, ok := parseTLVs(b, p+h+1, p+h+l, depth+1); ok && len(ch) == 1 {
+				n.children, n.cons, n.prefix = ch, true, []byte{0}
 			}
 		}
 		out = append(out, n)
@@ -290,8 +307,10 @@ func flatten(ns []*tlvNode, out *[]*tlvNode) {
 func render(ns []*tlvNode) []byte {
 	var out []byte
 	for _, n := range ns {
-		if n.cons {
-			out = append(out, der(n.tag, render(n.children))...)
+		if n.raw != nil {
+			out = append(out, n.raw...)
+		} else if n.cons {
+			out = append(out, der(n.tag, n.prefix, render(n.children))...)
 		} else {
 			out = append(out, der(n.tag, n.content)...)
 		}
@@ -386,6 +405,49 @@ func applyTLV(b []byte, op symOp) ([]byte, bool) {
 		out = append(out, l...)
 		return append(out, b[n.off+n.hlen:]...), true
 	}
+	// inner truncation: the node is replaced by literal bytes, every enclosing layer gets consistent lengths
+	var inner []byte
+	dropRest := false
+	if op.O == "tlvinner" {
+		own := b[n.off+n.hlen : n.off+n.hlen+n.clen]
+		hdrLen := b[n.off+1 : n.off+n.hlen]
+		switch op.V {
+		case "tagonly":
+			inner, dropRest = []byte{n.tag}, true
+		case "taglen":
+			if n.clen == 0 {
+				return nil, false
+			}
+			inner, dropRest = cat([]byte{n.tag}, hdrLen), true
+		case "taglen0":
+			if n.clen == 0 {
+				return nil, false
+			}
+			inner = []byte{n.tag, 0}
+		case "lenbig":
+			inner = cat([]byte{n.tag}, derLen(n.clen+1), own)
+		case "lenhuge":
+			inner = cat([]byte{n.tag, 0x84, 0xff, 0xff, 0xff, 0xff}, own)
+		case "wrongtag":
+			t := byte(0x04)
+			if n.tag == 0x04 {
+				t = 0x05
+			}
+			inner = cat([]byte{t}, hdrLen, own)
+		case "cut1":
+			if n.clen < 2 {
+				return nil, false
+			}
+			inner = der(n.tag, own[:1])
+		case "cutm1":
+			if n.clen < 1 {
+				return nil, false
+			}
+			inner = der(n.tag, own[:n.clen-1])
+		default:
+			rp.Bug("unknown inner truncation class %q", op.V)
+		}
+	}
 	// structural operators: edit the tree, then write it with consistent lengths
 	var edit func(ns []*tlvNode) []*tlvNode
 	edit = func(ns []*tlvNode) []*tlvNode {
@@ -393,6 +455,12 @@ func applyTLV(b []byte, op symOp) ([]byte, bool) {
 		for _, x := range ns {
 			if x == n {
 				switch op.O {
+				case "tlvinner":
+					out = append(out, &tlvNode{raw: inner})
+					if dropRest {
+						return out
+					}
+					continue
 				case "tlvdrop":
 					continue
 				case "tlvdup":
